@@ -1,14 +1,18 @@
 #!/bin/bash
-# usage: tools/benign.sh   -- behaviour-preserving edits of /repo (benign/*.diff: renamed locals, reordered independent
-# statements, an extra log line, a helper extracted, an equivalent rewrite) applied to a scratch copy one at a time;
-# the checks of the properties the edited file belongs to must stay silent (exit 0).  Not a registered check.
+# usage: tools/benign.sh [name-substring]  -- behaviour-preserving edits of /repo (benign/*.diff: renamed locals,
+# reordered independent statements, an extra log line, a helper extracted, an equivalent rewrite) applied to a scratch
+# copy one at a time; the checks of the properties that read the edited function must stay silent (exit 0).
+# Not a registered check.  (/repo must be clean: the scratch copy is taken from its working tree.)
 cd /verif
 declare -A MAP=(
  [B1_message_rename_local]="C18 C02" [B2_codec_rename_local]="C10 C01 C03" [B3_conn_extra_log]="C05 C14 C11 C09"
- [B4_order_rename_local]="C17" [B5_schema_rename_local]="C15" [B6_tester_reorder]="C20" [B7_journal_local]="C13 C08"
- [B8_conn_extract_helper]="C05 C14 C02" [B9_is_finished_tuple]="C17 C16" [B10_is_number_regex]="C10")
+ [B4_order_rename_local]="C17" [B5_schema_rename_local]="C15" [B6_tester_reorder]="C20" [B7_journal_local]="C13 C08 C05 C09"
+ [B8_conn_extract_helper]="C05 C14 C02" [B9_is_finished_tuple]="C17 C16" [B10_is_number_regex]="C10"
+ [B11_resend_rename_locals]="C06 C04 C09 C11 C12 C14 C05" [B12_resend_reorder]="C06 C04 C09 C12"
+ [B13_dispatcher_rename_locals]="C04 C09 C11 C12" [B14_send_msg_rename_locals]="C05 C02 C11 C14")
 rc=0
 for d in "${!MAP[@]}"; do
+  case "$d" in *"${1:-}"*) ;; *) continue;; esac
   out=$(tools/mutant.sh benign/$d.diff ${MAP[$d]} 2>&1 | grep -E "passed|failed|exit=")
   echo "$d: $(echo $out | tr '\n' ' ')"
   echo "$out" | grep -q "exit=[1-9]" && rc=1
